@@ -69,6 +69,14 @@ def memo_rule(repo: Repo, prop: str, rule_id: str, module_prefixes: Tuple[str, .
                     if m_.name == "__init__" or m_ is fn or not m_.params:
                         continue
                     sn_ = m_.params[0]
+                    # a nested helper that is handed `self` works on the object under its own parameter name (merge_two_sketches(self, other))
+                    me_ = {sn_}
+                    nested_ = {d_.name: d_ for d_ in ast.walk(m_.node) if isinstance(d_, ast.FunctionDef) and d_ is not m_.node}
+                    for c_2 in ast.walk(m_.node):
+                        if isinstance(c_2, ast.Call) and isinstance(c_2.func, ast.Name) and c_2.func.id in nested_:
+                            for k_, a_ in enumerate(c_2.args):
+                                if isinstance(a_, ast.Name) and a_.id == sn_ and k_ < len(nested_[c_2.func.id].args.args):
+                                    me_.add(nested_[c_2.func.id].args.args[k_].arg)
                     for n_ in ast.walk(m_.node):
                         hit = None
                         if isinstance(n_, (ast.Assign, ast.AugAssign, ast.AnnAssign)):
@@ -76,11 +84,11 @@ def memo_rule(repo: Repo, prop: str, rule_id: str, module_prefixes: Tuple[str, .
                                 b_ = t_
                                 while isinstance(b_, ast.Subscript):
                                     b_ = b_.value
-                                if isinstance(b_, ast.Attribute) and isinstance(b_.value, ast.Name) and b_.value.id == sn_ and b_.attr in read_attrs:
+                                if isinstance(b_, ast.Attribute) and isinstance(b_.value, ast.Name) and b_.value.id in me_ and b_.attr in read_attrs:
                                     hit = b_.attr
                         elif isinstance(n_, ast.Call) and isinstance(n_.func, ast.Attribute) and n_.func.attr in MUT:
                             b_ = n_.func.value
-                            if isinstance(b_, ast.Attribute) and isinstance(b_.value, ast.Name) and b_.value.id == sn_ and b_.attr in read_attrs:
+                            if isinstance(b_, ast.Attribute) and isinstance(b_.value, ast.Name) and b_.value.id in me_ and b_.attr in read_attrs:
                                 hit = b_.attr
                         if hit is not None and stale_state is None:
                             stale_state = (m_, hit, n_)
